@@ -13,6 +13,8 @@ Round 4: impose_variance / impose_spread case analysis (unchanged only for zero
 statistic and zero target; nan only for degenerate samples).
 Round 5 (hunt): distances are computed on float casts (repair 7928278); Lnorm
 takes the absolute value before the power.
+Round 6: _sort keeps its (samples, weights) table in floats; connected keeps
+absorbed keys (impose_collapse).
 NOT decided: reaching targets numerically, medians/MADs/trimmed variants,
 distances and norms.
 """
@@ -286,3 +288,23 @@ def collapse_groups_count_every_weight_once(ctx):
     """impose_collapse groups its pairs with tools.connected and moves the weight of every member onto the key: total weight is preserved only if each point belongs to exactly one group and the key is not among its own members (shared with C16.j)"""
     from .c16 import connected_unites_groups
     connected_unites_groups(ctx)
+
+
+@rule('C18.i', min_instances=1)
+def sorted_samples_keep_their_weights_as_floats(ctx):
+    """_sort (behind median, mad, tmean, tvariance and their impose_* variants) returns the samples in ascending order with each weight still attached to its sample, in a FLOAT table: np.ones / np.vstack of the two rows, never an array that takes the dtype of the samples (integer sample points with fractional weights: the weights were truncated to 0, median([1,2,3,4,5],[.1,.1,.1,.2,.5]) gave 1.0)"""
+    f = ctx.func('mystic.math.measures:_sort')
+    bad = None
+    for c in ast.walk(f.node):
+        if isinstance(c, ast.Call):
+            for k in c.keywords:
+                if k.arg == 'dtype' and 'float' not in unparse(k.value):
+                    bad = c
+    ctx.check(bad is None, '_sort#float-table', 'the (samples, weights) table is a float array',
+              '_sort builds its table with %s: the table takes the dtype of the samples, and for integer sample points the weights stored into it are truncated - weighted medians and trimmed statistics are computed from wrong weights'
+              % (unparse(bad)[:80] if bad is not None else ''), f, bad if bad is not None else f.node)
+    from .c18_refs import REFS
+    from .. import siblings as SB
+    got, want = SB.agree(f.node, REFS['mystic.math.measures:_sort'], strict_casts=True)
+    ctx.stats['terms_compared'] += len(got)
+    ctx.check(got == want, '_sort', 'samples ascending, weights carried along (unweighted: ones)', '_sort differs from its definition: %s' % SB.diff(got, want)[:300], f, f.node)
